@@ -637,6 +637,8 @@ type Net struct {
 	// touched (wrote to / closed) a connection: exactly one must precede an OPEN.
 	capsPending map[string]int
 	CapsOracle  bool
+	// CurDial is the attempt whose Control callback is executing.
+	CurDial *DialRec
 }
 
 // noteCaps is called when a GetCapabilities callback returns.
@@ -735,6 +737,7 @@ func (n *Net) dial(ctx context.Context, d *net.Dialer, network, address string) 
 	rec.Seq = w.Ev("dial %d to %s laddr=%s by %s", rec.ID, address, la, rec.Task)
 	if d.Control != nil {
 		rec.Controls++
+		n.CurDial = rec
 		if err := d.Control(network, address, fakeRawConn{}); err != nil {
 			return n.dialRet(rec, nil, err, "control-error")
 		}
